@@ -45,6 +45,17 @@ def evaluate(case):
     fails = []
     _, _, u = tr.fourier_transform(x, y, xo, xmax=hi, dy_in=e, **kw)
     u = np.asarray(u, dtype=float)
+    # the uncertainty depends on "the grids, the options and the input uncertainties" — not on what the same object was asked before:
+    # a bare cropping call without uncertainties, a transform that raised and was caught
+    try:
+        tr.apply_cropping(x, y, float(x.min()), float(x.max()))
+        tr.fourier_transform(x[:-1], y, xo)
+    except Exception:  # noqa: BLE001
+        pass
+    _, _, u_after = tr.fourier_transform(x, y, xo, xmax=hi, dy_in=e, **kw)
+    if not np.array_equal(np.asarray(u_after, dtype=float), u):
+        fails.append("transform uncertainty depends on earlier calls of the same object (a cropping call without uncertainties, or a "
+                     f"transform that raised): {np.asarray(u_after, dtype=float).tolist()[:3]} after them, {u.tolist()[:3]} before")
     _, _, u2 = tr.fourier_transform(x, y2, xo, xmax=hi, dy_in=e, **kw)
     if not np.array_equal(u, np.asarray(u2)):
         fails.append("transform uncertainty depends on the data values")
